@@ -300,6 +300,11 @@ pub enum Act {
     Ok,
     Err(String),
     Panic,
+    /// re-entrancy: before it returns `Ok`, the callback issues `call` on the very interpolator it
+    /// was handed (a user strategy may do that: every query method takes `&self`); `write_first` =
+    /// the callback fills its own target before the nested call (a target that is really a shared
+    /// scratch row is then clobbered by the nested call), otherwise afterwards
+    Nest { call: Box<Call>, write_first: bool },
 }
 
 #[derive(Serialize, Deserialize, Clone, Debug, PartialEq)]
@@ -315,6 +320,17 @@ pub struct Op {
     /// the stub checks the accessors (index_point, is_in_range) inside its callbacks
     #[serde(default)]
     pub check_acc: bool,
+    /// element-operation fault (slots over the yielding element type `Yf` only): the n-th element
+    /// operation (arithmetic / comparison / conversion) executed by this call panics, as checked
+    /// arithmetic of a user-defined numeric type would; 0 = none. The outcome of such a call is
+    /// itself not compared (a correct cache may legitimately change how many element operations a
+    /// call needs): it is a fault injected into the history of the calls that follow.
+    #[serde(default, skip_serializing_if = "is_zero_u32")]
+    pub elem_fault: u32,
+}
+
+fn is_zero_u32(v: &u32) -> bool {
+    *v == 0
 }
 
 #[derive(Serialize, Deserialize, Clone, Debug, PartialEq)]
@@ -413,6 +429,20 @@ pub struct StubLog {
     /// (x bits, y bits) received by callback k of this operation (first 1024 callbacks)
     #[serde(default)]
     pub seen: Vec<(u64, u64)>,
+    /// the planned element-operation fault actually fired
+    #[serde(default)]
+    pub elem_fault_fired: bool,
+    /// re-entrant calls made from inside callbacks of this operation, with their outcomes
+    #[serde(default, skip_serializing_if = "Vec::is_empty")]
+    pub nested: Vec<Nested>,
+}
+
+#[derive(Serialize, Deserialize, Clone, Debug, PartialEq)]
+pub struct Nested {
+    /// index of the outer callback that made the call
+    pub at: u32,
+    pub call: Call,
+    pub out: Outcome,
 }
 
 #[derive(Serialize, Deserialize, Clone, Debug, PartialEq)]
@@ -443,6 +473,8 @@ impl Outcome {
             && self.bits == o.bits
             && self.backing == o.backing
             && self.stub.violations == o.stub.violations
+            && self.stub.nested.len() == o.stub.nested.len()
+            && self.stub.nested.iter().zip(o.stub.nested.iter()).all(|(a, b)| a.at == b.at && a.out.same_answer(&b.out))
     }
     pub fn digest(&self) -> u64 {
         let mut h = Fnv::new();
@@ -461,6 +493,10 @@ impl Outcome {
         }
         for v in &self.stub.violations {
             h.str(v);
+        }
+        for n in &self.stub.nested {
+            h.u64(n.at as u64);
+            h.u64(n.out.digest());
         }
         h.0
     }
